@@ -492,23 +492,42 @@ _NOTE = ("Trusted: Coq kernel, extraction (ExtrOcamlBasic), ocaml/Pop_driver.ml,
          "finalization and save/load are outside this model.")
 _TECH = "Coq proof (induction over op histories, invariants) + extraction-based differential correspondence + direct oracles"
 META_C02 = {
-    "text": "Theorems (Coq, all trees, all payload assignments, all failing positions, all histories): CommandGroup::execute, "
-            "applyBlock, apply, PopStateMachine::setState and the comparePopScore skeleton of the as-coded model are "
-            "atomic: success = target is tip, exactly root..tip applied, tip fully valid; failure = protecting state and "
-            "applied set unchanged, marks changed only as the property allows; the rollback assert is never hit from "
-            "reachable states. See Properties_C02.v for the exact statements and which are _partial.",
+    "text": "Theorems (Coq, closed under the global context; all trees, payload assignments, failing positions, histories): "
+            "CommandGroup::execute is atomic and unExecute is its exact inverse; applyBlock is atomic (a failing k-th group "
+            "of any block leaves P, the applied counter and the tip untouched and changes only FAILED_POP/FAILED_CHILD "
+            "marks); applyBlock followed by unapplyBlock restores P exactly; after setState / comparePopScore with ANY "
+            "outcome P is exactly (as a multiset) the bootstrap state plus the effects of the blocks flagged applied; "
+            "setState true => target is tip, fully valid, counter = chain length; false => tip unchanged, counter = chain "
+            "length, target invalid. _partial (C02_setState_atomic_partial, C02_compare_atomic_partial): not proved that the "
+            "blocks flagged applied are exactly root..tip after the call and that no assert (Abort) is reachable; the full "
+            "statements are kept in coq/Properties_C02.v. Those parts are covered by the direct oracle on the implementation "
+            "(full ALT/VBK/BTC snapshot before/after every call, with the allowance of DESIGN section 7) under exhaustive "
+            "enumeration of the failing group position, and by the step-by-step correspondence with the extracted model.",
     "note": _NOTE, "technique": _TECH,
 }
 META_C01 = {
-    "text": "Theorems (Coq): in every reachable state of the as-coded POP state machine model the protecting state equals "
-            "(as reference counts / endorsement multiset) the replay of the active chain from the bootstrap state; "
-            "two histories ending with the same active chain give the same counts. See Properties_C01.v.",
+    "text": "Theorems (Coq, closed): every command of the reference-count machine has an exact inverse; "
+            "C01_applied_canonical: in EVERY state reachable by any history of connectBlock / setState / comparePopScore "
+            "(any scorer) over any tree with any payloads, P = bootstrap state + exactly the effects of the blocks flagged "
+            "applied (reference counts and endorsement multiset) - nothing of an abandoned or rolled-back fork is left; "
+            "C01_history_independence_partial: two histories whose applied blocks carry the same payloads end with the same "
+            "reference counts and endorsements (the fresh instance shown only the final chain is one of them). _partial: "
+            "'applied blocks = root..tip between calls' is not proved (kept in coq/Properties_C01.v); verdict and payout "
+            "equality are checked on the implementation by the twin oracle (history vs fresh instance: POP projection of "
+            "the ALT/VBK/BTC views, payouts, comparePopScore against shown candidates), not proved.",
     "note": _NOTE, "technique": _TECH,
 }
 META_C20 = {
-    "text": "Theorems (Coq): a block at level CAN_BE_APPLIED replays successfully alone from the bootstrap state "
-            "(invariant over all histories incl. comparisons), a block applied next to another chain only gets the MAYBE "
-            "level, setState to a fully valid, not invalidated block succeeds from every reachable state. See Properties_C20.v.",
+    "text": "Theorems (Coq, closed): the fully-valid level is raised by applyBlock only on a fully valid parent and only when "
+            "the applied-block counter equals the block's height above the root (C20_full_validity_truthful_partial); a block "
+            "applied next to another chain or on a MAYBE parent is never reported fully valid by that application "
+            "(C20_maybe_level_never_reported_full); unapplyBlock only runs on an applied block with applied parent and no "
+            "applied child (C20_unapply_order); a successful setState ends on a fully valid tip (C20_reactivation_partial). "
+            "_partial: the counting argument that turns the guard into 'replaying root..b alone succeeds' and hence "
+            "re-activation from every reachable state is not proved (statements kept in coq/Properties_C20.v). That part is "
+            "checked on the implementation: every block that ever reported full validity or won a setState/compare is "
+            "re-activated at random later points (histories with planted invalid payloads, candidates valid only thanks to "
+            "the competing chain, invalidate/revalidate/remove), and the model's validity levels are compared exactly.",
     "note": _NOTE, "technique": _TECH,
 }
 
@@ -784,19 +803,19 @@ def run_check(ctx, pid):
             if quick:
                 gen_c02(ctx, sc, 25, 4, 4, 12)
             else:
-                gen_c02(ctx, sc, 600, 12, 6, 300)
+                gen_c02(ctx, sc, 250, 12, 6, 200)
         elif pid == "C20":
             if quick:
                 gen_c20(ctx, sc, 36, 30)
             else:
-                gen_c20(ctx, sc, 2500, 60)
+                gen_c20(ctx, sc, 600, 50)
         elif pid == "C01":
             if quick:
                 gen_c01(ctx, sc, 60, 36)
                 gen_corr_honest(ctx, sc, 20, 30)
             else:
-                gen_c01(ctx, sc, 3000, 60)
-                gen_corr_honest(ctx, sc, 600, 50)
+                gen_c01(ctx, sc, 1500, 60)
+                gen_corr_honest(ctx, sc, 300, 50)
     tgen = time.time() - t0
     lines = sc.lines
     results, oracle, crashes = run_script(hbin, lines, ctx.work, tag=pid, timeout=1200 if quick else 3 * 3600)
@@ -922,6 +941,7 @@ def run_check(ctx, pid):
                                "generator": sc.stats, "equal_pairs_checked": neq, "oracle_failures": len(oracle),
                                "crashes": len(crashes), "model_disagreements": len(dis),
                                "gen_s": round(tgen, 1), "harness_s": round(trun, 1)}
+    ctx.cov["partial_theorems"] = [t for t in ctx.cov.get("theorems", []) if t.endswith("_partial")]
     for l in lines[:2] + lines[-2:]:
         ctx.sample({"line": l, "impl": (results.get(l.split()[0]) or "")[:200]})
     ctx.cov["trusted_base"] = ctx.cov.get("trusted_base", []) + [
